@@ -36,6 +36,8 @@ class DispatchModel:
         if isinstance(n, (ast.Name, ast.Attribute)) and not (isinstance(n, ast.Name) and n.id in params_of(f.node)):
             try:
                 v = self.ctx.repo.try_const(f.module, n.id, None) if isinstance(n, ast.Name) else try_const(self.ctx, f, n)
+            except (NameError, UnboundLocalError):
+                raise
             except Exception:
                 v = None
             return v if isinstance(v, str) else None
@@ -132,6 +134,8 @@ class DispatchModel:
         def test_value(t):
             try:
                 return bool(ceval(t, env))
+            except (NameError, UnboundLocalError):
+                raise
             except Exception:
                 pass
             # reader = TABLE.get(v);  if reader is None / if not reader / if reader
@@ -369,6 +373,14 @@ def r_kill(ctx) -> RuleResult:
         # labels that every value carries (line splicing etc.) are not specific to the symbol
         common = common_labels(I, rec, _bonds)
         sym_labels -= (common or set())
+        # a label that a value from another field carries too (the slice of the line that is then cut into fields) does not
+        # single out the symbol: only labels are kept that no stored value has without having all of the symbol's labels
+        full = set(sym_labels)
+        for ev in I.events:
+            if ev.kind == "store" and ev.key != "element_symbol" and not full <= set(ev.flags):
+                sym_labels -= set(ev.flags)
+        if full and not sym_labels:
+            raise AnalysisError(f"R-KILL: {ver}: the element symbol has no origin of its own among the stored values (all of {sorted(full)} are shared with other fields)")
         kills = _uniq_events(I.events, "kill")
         for ev in kills:
             n += 1
@@ -581,6 +593,8 @@ def token_recognizers(ctx, fis) -> list:
                     if st.targets[0].id in need and st.targets[0].id not in e2:
                         try:
                             e2[st.targets[0].id] = ceval(st.value, e2)
+                        except (NameError, UnboundLocalError):
+                            raise
                         except Exception:
                             pass
                 out.append(Recognizer(f, owner, var, pred, {k: v for k, v in e2.items() if k in free}))
@@ -604,6 +618,8 @@ def pred_accepts(pred: ast.expr, var: str, tok: str, env0: dict | None = None) -
             if ceval(pred, env):
                 return True
         except Unsupported:
+            raise
+        except (NameError, UnboundLocalError):
             raise
         except Exception:
             continue        # the predicate raised on this token (e.g. no '='): not accepted
@@ -670,6 +686,8 @@ def _int_or_none(e, env):
     try:
         v = ceval(e, env)
         return v if isinstance(v, int) else None
+    except (NameError, UnboundLocalError):
+        raise
     except Exception:
         return None
 
@@ -1452,6 +1470,8 @@ def r_supersede(ctx) -> RuleResult:
                         # the key is computed: is it the same for two different lines of one kind?
                         try:
                             same = all(key_on(tg.slice, sm_[0]) == key_on(tg.slice, sm_[1]) for sm_ in SAMPLES.values())
+                        except (NameError, UnboundLocalError):
+                            raise
                         except Exception:
                             same = None
                         if same:
@@ -1497,6 +1517,57 @@ def r_supersede(ctx) -> RuleResult:
         ln = cfgs.node_of(scan)
         done_targets = [t for _, t, d in cfgs.g.out_edges(ln, data=True) if d.get("label") in ("done", "both")]
         ok = bool(done_targets) and all(not cfgs.reachable(t, cfgs.EXIT) and t != cfgs.EXIT for t in done_targets)
+        if not ok and done_targets:
+            # does it raise unless a mode switch says otherwise (an opt-in lenient mode)?  Then the default behaviour is what the
+            # switch's default gives, which is not followed here
+            fnn = sf.node
+            defaults = {a.arg for a, _d in zip(reversed(fnn.args.args), reversed(fnn.args.defaults))} | {a.arg for a, d_ in zip(fnn.args.kwonlyargs, fnn.args.kw_defaults) if d_ is not None}
+            modevars = {nm for nm, v_ in sf.module.assigns.items() if try_const(ctx, sf, ast.Name(nm, ast.Load()), default=None) is None or
+                        any(isinstance(g_, ast.Global) and nm in g_.names for g_ in ast.walk(sf.module.tree))}
+            switches = []
+            in_body = {id(y) for b_ in scan.body for y in ast.walk(b_)}
+            for rs in [x for x in own_walk(fnn) if isinstance(x, ast.Raise) and id(x) not in in_body]:
+                rn_ = cfgs.node_of(rs)
+                if rn_ is None or not any(cfgs.reachable(t, rn_) or t == rn_ for t in done_targets):
+                    continue
+                from .parserwiring import _guard_tests
+                tests = [t_ for t_ in _guard_tests(fnn, rs) if not isinstance(t_, tuple) and id(t_) not in in_body and t_ is not getattr(scan, "test", None)]
+                names = set().union(*[names_in(t_) for t_ in tests]) if tests else set()
+                if tests and names and names <= (defaults | modevars):
+                    switches.append(tests[0])
+            if switches and not (names_in(switches[0]) & defaults):
+                # a module-level switch: its setting at import time is the default behaviour
+                from ..concrete import ceval as _ceval_const
+                env_ = {}
+                for nm in names_in(switches[0]):
+                    v_ = sf.module.assigns.get(nm)
+                    if isinstance(v_, ast.Call) and norm(v_.func).endswith("ContextVar"):
+                        d_ = kwarg(v_, "default")
+                        if d_ is not None and isinstance(d_, ast.Constant):
+                            env_[nm] = d_.value
+                    elif isinstance(v_, ast.Constant):
+                        env_[nm] = v_.value
+                if set(env_) == names_in(switches[0]):
+                    class _GetDefault(ast.NodeTransformer):
+                        def visit_Call(self, n_):
+                            if isinstance(n_.func, ast.Attribute) and n_.func.attr == "get" and isinstance(n_.func.value, ast.Name) and n_.func.value.id in env_ and not n_.args:
+                                return ast.copy_location(ast.Name(n_.func.value.id, ast.Load()), n_)
+                            return self.generic_visit(n_)
+                    import copy
+                    t2 = ast.fix_missing_locations(_GetDefault().visit(copy.deepcopy(switches[0])))
+                    try:
+                        at_default = bool(_ceval_const(t2, env_, {}))
+                    except (NameError, UnboundLocalError):
+                        raise
+                    except Exception:
+                        at_default = None
+                    if at_default is True:
+                        ok = True
+                        res.notes.append(f"{sf.qualname}: `{short(switches[0], 50)}` holds at the switch's import-time setting: a file without `M  END` is rejected unless a caller changes it")
+                    elif at_default is False:
+                        switches = []
+            if switches and not ok:
+                raise AnalysisError(f"R-SUPERSEDE: whether a file without `M  END` is rejected depends on `{short(switches[0], 50)}` in {sf.qualname}, a switch whose setting is not followed")
         res.inst(sf.fq, "running off the end of the file without `M  END` raises", "ok" if ok else "fail")
         if not ok:
             res.fail(Finding("R-SUPERSEDE", sf.module.rel, sf.qualname, short(scan, 60), "a file without `M  END` is accepted silently", line=scan.lineno))
@@ -1562,6 +1633,8 @@ def regex_of(ctx, f, e) -> Optional[str]:
                 try:
                     from ..model import ConstEval
                     v = ConstEval(ctx.repo, r[1]).eval(val.args[0], {})
+                except (NameError, UnboundLocalError):
+                    raise
                 except Exception:
                     v = None
                 return v if isinstance(v, str) else None
@@ -1596,6 +1669,8 @@ def regex_group_columns(pat: str):
     from re._constants import BRANCH, SUBPATTERN, AT
     try:
         tree = sp.parse(pat)
+    except (NameError, UnboundLocalError):
+        raise
     except Exception:
         return None
     items = list(tree)
@@ -1631,6 +1706,8 @@ def _regex_prefix_length(pat: str):
     from re._constants import LITERAL, MAX_REPEAT, MIN_REPEAT, IN, CATEGORY, AT, MAXREPEAT
     try:
         items = list(sp.parse(pat))
+    except (NameError, UnboundLocalError):
+        raise
     except Exception:
         return None
     n = 0
@@ -1938,6 +2015,8 @@ def _read_time_validation(ctx, lis, res: RuleResult):
             return None
         try:
             vals = {r: run_outcome(m.node.body, {}, {**cnt, norm(call): r}) == "raise" for r in (1, 3, 4, 5)}
+        except (NameError, UnboundLocalError):
+            raise
         except Exception as ex:
             raise AnalysisError(f"R-ORDERING: cannot evaluate the index check of {m.qualname} ({ex})")
         good = (not vals[1]) and (not vals[3]) and vals[4] and vals[5]
@@ -2005,6 +2084,8 @@ def _check_parser_validation(ctx, res: RuleResult):
             continue
         try:
             vals = {i: run_outcome(m.node.body, {ps[1]: i}, stubs) == "raise" for i in (0, 2, 3, 4)}
+        except (NameError, UnboundLocalError):
+            raise
         except Exception:
             continue
         good = (not vals[0]) and (not vals[2]) and vals[3] and vals[4]
@@ -2551,6 +2632,7 @@ def r_dispatch(ctx) -> RuleResult:
                             lists_of[cs.target.fq].add(tp[i_ + off])
                             changed = True
     n = 0
+    suspects = []
     for fi in pre:
         fn = fi.node
         line_lists = lists_of[fi.fq]
@@ -2565,13 +2647,104 @@ def r_dispatch(ctx) -> RuleResult:
                     k = try_const(ctx, fi, x.slice)
                     ok = isinstance(k, int) and k >= 3
                     what = f"lines[{norm(x.slice)}]"
-                res.inst(fi.fq, f"{what} read before dispatch", "ok" if ok else "fail")
-                if not ok:
-                    res.fail(Finding("R-DISPATCH", fi.module.rel, fi.qualname, norm(x), f"{what} covers the title / program / comment lines: their text influences how the file is read", line=x.lineno))
+                if ok:
+                    res.inst(fi.fq, f"{what} read before dispatch", "ok")
+                else:
+                    suspects.append((fi, x, f"{what} covers the title / program / comment lines", f"{what} read before dispatch"))
             if isinstance(x, (ast.For, ast.comprehension)) and isinstance(x.iter, (ast.Name, ast.Attribute)) and norm(x.iter) in line_lists:
                 n += 1
-                res.inst(fi.fq, f"iteration over all lines `{short(x.iter)}`", "fail")
-                res.fail(Finding("R-DISPATCH", fi.module.rel, fi.qualname, norm(x.iter), "all lines, including title / program / comment lines, are inspected before a reader is chosen", line=x.iter.lineno))
+                suspects.append((fi, x.iter, "all lines, including title / program / comment lines, are inspected before a reader is chosen", f"iteration over all lines `{short(x.iter)}`"))
     if n == 0:
         raise AnalysisError("R-DISPATCH: the dispatcher no longer reads the version from the line list")
+    if suspects:
+        # the header lines are looked at.  That alone is not the defect: it is one if their text changes which reader gets the
+        # file or what it gets.  The dispatcher is followed on complete sample files whose header lines end in a version word.
+        wit = _dispatch_witness(ctx, disp, pre)
+        for fi, x, why, what in suspects:
+            res.inst(fi.fq, what, "fail" if wit else "undecided")
+        if wit is None:
+            fi, x, why, what = suspects[0]
+            raise AnalysisError(f"R-DISPATCH: {fi.qualname}: {why}; the sample files with a version word in a header line are still handed to the reader of their counts "
+                                "line unchanged, so this is not shown to be a defect, and not shown to be none")
+        fi, x, why, what = suspects[0]
+        res.fail(Finding("R-DISPATCH", fi.module.rel, fi.qualname, norm(x), f"{why}: their text influences how the file is read ({wit})", line=x.lineno))
     return res
+
+
+def _dispatch_witness(ctx, disp, pre):
+    """follow the dispatcher on complete V2000 / V3000 sample files whose title / program / comment line ends in the other
+    version's word.  A description of the first sample that is not handed, unchanged, to the reader of its counts line;
+    None if all are; AnalysisError if the dispatcher cannot be followed on the samples."""
+    import re as _re
+    from ..concrete import UNKNOWN, PathEval, PState, _Leave, _Unknown
+    ents = reader_entries(ctx)
+
+    def consts_of(f_):
+        out_ = {}
+        for nm in {x.id for x in ast.walk(f_.node) if isinstance(x, ast.Name)}:
+            if nm in params_of(f_.node):
+                continue
+            v = try_const(ctx, f_, ast.Name(nm, ast.Load()), default=None)
+            if v is not None:
+                out_.setdefault(nm, v)
+            else:
+                pat = regex_of(ctx, f_, ast.Name(nm, ast.Load()))
+                if pat is not None:
+                    try:
+                        out_.setdefault(nm, _re.compile(pat))
+                    except _re.error:
+                        pass
+        return out_
+    calls = {}
+    for f_ in pre:
+        if f_.cls is None and "." not in f_.qualname and f_.fq != disp.fq:
+            calls[f_.name] = (f_.node, consts_of(f_))
+    for ver, ent in ents.items():
+        stub = ast.parse(f"def {ent.name}(lines):\n    return (('READ', {ver!r}, list(lines)), 'BONDS')").body[0]
+        calls[ent.name] = (stub, {})
+    calls["graph_from_molecule"] = (ast.parse("def graph_from_molecule(a, b):\n    return a").body[0], {})
+    body = {
+        "V2000": ["  1  0  0  0  0  0  0  0  0  0999 V2000", "    0.0000    0.0000    0.0000 C   0  0  0  0  0  0  0  0  0  0  0  0", "M  END"],
+        "V3000": ["  0  0  0     0  0            999 V3000", "M  V30 BEGIN CTAB", "M  V30 COUNTS 1 0 0 0 0", "M  V30 BEGIN ATOM", "M  V30 1 C 0 0 0 0", "M  V30 END ATOM",
+                  "M  V30 END CTAB", "M  END"],
+    }
+    other = {"V2000": "V3000", "V3000": "V2000"}
+    ps = params_of(disp.node)
+    if len(ps) != 1:
+        raise AnalysisError(f"R-DISPATCH: {disp.qualname} no longer takes the file text alone")
+
+    def outcome(lines):
+        pe = PathEval(calls)
+        env = consts_of(disp)
+        env[ps[0]] = "\n".join(lines)
+        falls, lefts = pe.block(disp.node.body, [PState(env)])
+        rets = [v_ for _s, how, v_ in lefts if how == "return"]
+        raised = [1 for _s, how, _v in lefts if how == "raise"]
+        if pe.gaps or falls or (rets and raised) or len(rets) > 1:
+            return None, (pe.gaps or ["several ways through the dispatcher on one sample"])[0]
+        if raised and not rets:
+            return "raise", None
+        v = rets[0]
+        if isinstance(v, tuple) and len(v) == 3 and v[0] == "READ":
+            return (v[1], v[2]), None
+        return None, f"what the dispatcher hands back on the sample is not what the reader gave ({type(v).__name__})"
+    for ver in ("V2000", "V3000"):
+        plain = ["", "", ""] + body[ver]
+        got, gap = outcome(plain)
+        if got != (ver, plain):
+            raise AnalysisError(f"R-DISPATCH: cannot follow {disp.qualname} on a plain {ver} sample file" + (f" ({gap})" if gap else f" (outcome {got!r:.80})"))
+    for ver in ("V2000", "V3000"):
+        for k in range(3):
+            for text in (f"exported from a {other[ver]}", other[ver], f"  1  0  0  0  0  0  0  0  0  0999 {other[ver]}"):
+                lines = ["", "", ""] + body[ver]
+                lines[k] = text
+                got, gap = outcome(lines)
+                if got is None:
+                    raise AnalysisError(f"R-DISPATCH: cannot follow {disp.qualname} on a {ver} sample file with `{text}` as line {k + 1} ({gap})")
+                if got == "raise":
+                    return f"a complete {ver} file whose line {k + 1} (of the three free-text header lines) reads `{text.strip()}` is rejected"
+                if got[0] != ver:
+                    return f"a complete {ver} file whose line {k + 1} (of the three free-text header lines) reads `{text.strip()}` is given to the {got[0]} reader"
+                if got[1] != lines:
+                    return f"a complete {ver} file whose line {k + 1} (of the three free-text header lines) reads `{text.strip()}` reaches its reader with lines added or removed"
+    return None
